@@ -441,7 +441,60 @@ def gen_links():
     return "GenLinks.v", text, {"file_link_url_is_modelled": ok}
 
 
-GENERATORS = {"proc": gen_proc, "vte": gen_vte, "features": gen_features, "syntax": gen_syntax, "counter": gen_counter, "grep": gen_grep, "merge": gen_merge, "sbs": gen_sbs, "hunkpath": gen_hunkpath, "ingest": gen_ingest, "submodule": gen_submodule, "links": gen_links}
+def _bool_expr(e, atoms):
+    """a flat Rust boolean expression over known atoms -> Coq (&& binds tighter than || in both)"""
+    ors = []
+    for o in e.split(" || "):
+        ands = []
+        for a in o.split(" && "):
+            a = a.strip()
+            if a not in atoms:
+                raise PatternError("unknown condition: " + a)
+            ands.append(atoms[a])
+        ors.append(" && ".join(ands))
+    return " || ".join(ors)
+
+
+def gen_blamenumbers():
+    """when format_blame_line_number (src/handlers/blame.rs) leaves the line-number field blank, by mode"""
+    src = rustsrc.load(os.path.join(REPO, "src/handlers/blame.rs"))
+    body = norm(rustsrc.fn_body(src, r"pub fn format_blame_line_number\("))
+    m = re.search(r"let \(format, empty\) = match &format \{ BlameLineNumbers::PerBlock\(format\) => \(format, (.*?)\), "
+                  r"BlameLineNumbers::Every\(n, format\) => \(format, (.*?)\), BlameLineNumbers::On\(format\) => \(format, (.*?)\), \};", body)
+    if not m or body.count("empty") != 2 or "if empty { for _ in 0..measure_text_width(&line_number) { result.push(' '); } } else { result.push_str(&line_number); }" not in body:
+        raise PatternError("format_blame_line_number has a different shape")
+    atoms = {"is_repeat": "is_repeat", "!is_repeat": "negb is_repeat", "line_number % n != 0": "negb (line_number mod n =? 0)",
+             "line_number % n == 0": "(line_number mod n =? 0)", "true": "true", "false": "false"}
+    pb, ev, on = (_bool_expr(x, atoms) for x in m.groups())
+    text = ("(* GENERATED by tools/translate.py from src/handlers/blame.rs (format_blame_line_number): the condition under which the\n"
+            "   line-number field is filled with blanks, per line-number mode. *)\n"
+            "From Coq Require Import Bool NArith.\nFrom DV Require Import BlameNumbers.\nLocal Open Scope N_scope.\n"
+            "Definition code_blank (m : nmode) (is_repeat : bool) (line_number : N) : bool :=\n  match m with\n"
+            f"  | PerBlock => {pb}\n  | Every n => {ev}\n  | On => {on}\n  end.\n")
+    return "GenBlameNumbers.v", text, {"per_block": pb, "every": ev, "on": on}
+
+
+def gen_differ():
+    """the guard of build_diff_cmd (src/subcommands/diff.rs) that chooses `git diff --no-index` over plain `diff`"""
+    src = rustsrc.load(os.path.join(REPO, "src/subcommands/diff.rs"))
+    body = norm(rustsrc.fn_body(src, r"pub fn build_diff_cmd\("))
+    m = re.search(r"let \(differ, mut diff_cmd\) = match retrieve_git_version\(\) \{ Some\(version\) if (.*?) => \{ \( SubCmdKind::GitDiff,", body)
+    ps = 'let via_process_substitution = |f: &Path| f.starts_with("/proc/self/fd/") || f.starts_with("/dev/fd/");'
+    if not m or ps not in body or body.count("SubCmdKind::GitDiff") != 1:
+        raise PatternError("build_diff_cmd has a different shape")
+    g = re.fullmatch(r"version >= \((\d+), (\d+)\) \|\| !\(via_process_substitution\(minus_file\) (\|\||&&) via_process_substitution\(plus_file\)\)", m.group(1))
+    if not g:
+        raise PatternError("build_diff_cmd: the guard has a different shape: " + m.group(1))
+    text = ("(* GENERATED by tools/translate.py from src/subcommands/diff.rs (build_diff_cmd): the guard under which\n"
+            "   `git diff --no-index` is started rather than plain `diff`. *)\n"
+            "From Coq Require Import Bool NArith.\nFrom DV Require Import Differ.\nLocal Open Scope N_scope.\n"
+            f"Definition code_min_version : version := ({g.group(1)}, {g.group(2)}).\n"
+            "Definition code_use_git (v : version) (minus_is_pipe plus_is_pipe : bool) : bool :=\n"
+            f"  version_ge v code_min_version || negb (minus_is_pipe {g.group(3)} plus_is_pipe).\n")
+    return "GenDiffer.v", text, {"min_version": [int(g.group(1)), int(g.group(2))], "inner": g.group(3)}
+
+
+GENERATORS = {"proc": gen_proc, "vte": gen_vte, "features": gen_features, "syntax": gen_syntax, "counter": gen_counter, "grep": gen_grep, "merge": gen_merge, "sbs": gen_sbs, "hunkpath": gen_hunkpath, "ingest": gen_ingest, "submodule": gen_submodule, "links": gen_links, "blamenumbers": gen_blamenumbers, "differ": gen_differ}
 
 
 def run(which=None):
